@@ -779,6 +779,28 @@ def builtin_fn_item(e, st, text, args):
 
 
 # =========================================================================== install
+def m_now_or_never(e, st, fr, t, args):
+    """FutureExt::now_or_never(fut): poll once with a no-op waker; Ready(v) -> Some(v), Pending -> None; fut is dropped"""
+    fut = args[0]
+    if not (isinstance(fut, VAgg) and (is_h(fut) or fut.name in ('leaf', 'sink::Send'))):
+        raise Unsupported(f"now_or_never on {fut!r}")
+    oid = st.alloc(fut)
+    ref = VRef(('obj', oid), (), True)
+    saved = st.meta.get('blocked_on', frozenset())
+    outs = []
+    for s2, pv in e.leaf_poll(st, ref, fut):
+        s2.meta['blocked_on'] = saved          # a discarded poll does not block the task
+        cur = s2.objs.get(oid)
+        s2.objs[oid] = TOMB
+        e.dropper.drop(s2, cur, 'now_or_never drops the future')
+        val = some(pv.fields[('v', 'Ready', 0)]) if pv.vname == 'Ready' else NONE
+        f2 = s2.frames[-1]
+        e.write_place(s2, f2, t.dest, val)
+        f2.bb = t.target
+        outs.append(s2)
+    return outs
+
+
 def m_int_max(e, st, fr, t, args):
     a, b = e.as_int_expr(args[0]), e.as_int_expr(args[1])
     if isinstance(a, int) and isinstance(b, int):
@@ -821,6 +843,7 @@ def install(eng: Engine, resolver):
     add(r'oneshot::channel::<', m_oneshot_channel)
     add(r'oneshot::Sender::<.*>::send$', m_oneshot_send)
     add(r' as FutureExt>::shared$', m_shared)
+    add(r' as FutureExt>::now_or_never$', m_now_or_never)
     add(r'^<Shared<.*> as Clone>::clone$', m_shared_clone)
     add(r'^Shared::<.*>::peek$', m_shared_peek)
     add(r'^futures::future::abortable::<', m_abortable)
